@@ -336,3 +336,67 @@ def index_param_rule(prog, ctx, rule):
         else:
             ctx.ok(rule, "%s works on the entry it is given" % f.name, f.where, "all %d entry accesses use [%s]" % (len(own), ip))
     ctx.floor("%s functions with an entry index parameter" % rule, n, 10)
+
+
+def searched_message_table(prog, es, table="messages"):
+    """econf_errString over a table of {code, "text"} rows that is searched by code instead of being indexed:
+         for (i = 0; i < <number of rows>; i++) if (table[i].code == error) return table[i].text;
+    Returns None when the function is not of that form, else (ok, why, loop): ok when the loop visits every row from 0 in steps of
+    one without another way out, the row tested is the row delivered, and every enumerator of econf_err has a row with a text."""
+    from sa import loops as _loops
+    g = prog.globals.get(table)
+    rows = g.init_rows() if g is not None and hasattr(g, "init_rows") else None
+    if not rows:
+        return None
+    p = es.params[0]["name"]
+    for lp in es.walk():
+        if lp.k not in ("ForStmt", "WhileStmt"):
+            continue
+        sh = _loops.index_shape(lp)
+        if not sh.ok:
+            continue
+        tests = []
+        for x in lp.walk():
+            if x.k == "IfStmt":
+                c = x.child("cond")
+                c0 = c.strip() if c is not None else None
+                if c0 is not None and c0.k == "BinaryOperator" and c0.j.get("op") == "==":
+                    a, b = c0.children[0].strip(), c0.children[1].strip()
+                    for u, v in ((a, b), (b, a)):
+                        if render(v) == p and u.k == "MemberExpr" and render(u.children[0]) == "%s[%s]" % (table, sh.var):
+                            tests.append((x, u))
+        if not tests:
+            continue
+        if len(tests) != 1:
+            return (False, "more than one row test in the search loop", lp)
+        ifs, u = tests[0]
+        bn = getattr(sh, "bound_node", None)
+        bv = bn.const_value() if bn is not None else None
+        if bv is None:
+            from sa.dataflow import ReachingDefs
+            ds = [d for d in ReachingDefs(es).defs if d.var == sh.bound]
+            if len(ds) == 1 and ds[0].rhs is not None:
+                bv = ds[0].rhs.const_value()
+        if not (str(sh.start) == "0" and sh.step == 1 and sh.cmp == "<" and not getattr(sh, "extra", None) and bv == len(rows)):
+            return (False, "the search does not run over all %d rows (%s)" % (len(rows), sh.describe()), lp)
+        if any(x.k in ("BreakStmt", "GotoStmt") for x in lp.walk()):
+            return (False, "the search loop has another way out", lp)
+        then = ifs.child("then")
+        rets = [r for r in (then.walk() if then is not None else []) if r.k == "ReturnStmt"]
+        if len(rets) != 1 or not rets[0].children:
+            return (False, "a hit does not return the row's text", lp)
+        rv = rets[0].children[0].strip()
+        if not (rv.k == "MemberExpr" and render(rv.children[0]) == "%s[%s]" % (table, sh.var) and rv.j.get("member") != u.j.get("member")):
+            return (False, "a hit returns `%s`, not the text of the row tested" % render(rv), lp)
+        codes = [c["val"] for c in prog.enum("econf_err")["enumerators"]]
+        have = {}
+        for code, text in rows:
+            if code is not None and code not in have:
+                have[code] = text
+        missing = [v for v in codes if not have.get(v)]
+        if any(code is None for code, _ in rows):
+            return (False, "a row whose code is not a constant", lp)
+        if missing:
+            return (False, "no row with a text for code(s) %s" % missing, lp)
+        return (True, "%s[] is searched by code over all %d rows; each of the %d codes has a row with a text" % (table, len(rows), len(codes)), lp)
+    return None
